@@ -7,6 +7,7 @@ def handlers : List (String × (Json → R Json)) := [
   ("auc", Stats.hAuc),
   ("discover", Disc.hDiscover),
   ("ocse", Disc.hOcse),
+  ("spec_ok", Disc.hSpecOk),
   ("shuffle_decide", Disc.hShuffleDecide),
   ("lag_index", Disc.hLagCols),
   ("logistic_step", Syn.hLogisticStep),
